@@ -115,3 +115,48 @@ Example C05_unclamped_emission_would_panic :
               {| m_bank := []; m_supply := 0; m_last := Some 1 |} = false
   /\ mint_for_block_raw 1 bpy (2 * bpy) = -1.
 Proof. vm_compute. split; reflexivity. Qed.
+
+(* ---------------------------------------------------------------------------------------------
+   Tie to the code by translation + proof: the functions below are GENERATED on every run from /repo's
+   current Go source (translator/gen_gofuncs.go -> Gen/GoWindows.v and Gen/GoMint.v); the theorems say that the hand-written model the
+   property theorems above are about computes what the generated function computes, for all arguments. *)
+From Coq Require Import String.
+From JK Require Import Base.GoSem Gen.GoWindows Gen.GoMint Proofs.GoTieWindows Proofs.GoTieMint.
+
+(* where the generated begin-block code panics: the integer remainders by CheckWindow (R1) and by the file's proof
+   interval (R2), exactly as Model/BeginBlock.v says *)
+Theorem C05_code_tie_storage_panic_sites :
+  forall f h found last size cw, small h -> small (bf_start f) -> small (bf_interval f) ->
+    gen_manageProof (bf_start f) (bf_interval f) h size found (if found then last else 0)
+    = gmap (fun v => verdict_events size (of_slot_verdict v)) (of_outcome (manage_slot f h found last)) /\
+    gen_RunRewardBlock cw h
+    = (if cw =? 0 then GPanic else GVal (if 0 <? Z.rem h cw then [] else [Ev "manage-rewards"%string []])).
+Proof.
+  intros f h found last size cw Hh Hs Hp. split; [|exact (gen_RunRewardBlock_spec cw h)].
+  rewrite (gen_manageProof_spec _ _ h size found _ Hh Hs Hp), <- beginblock_manage_slot.
+  destruct (manage_slot f h found last); reflexivity.
+Qed.
+Print Assumptions C05_code_tie_storage_panic_sites.
+
+(* ... and in x/jklmint: the emission's TruncateInt64 (M1), the shares' TruncateInt64 (M3) and the staker coin's
+   negative amount (M4), with the very expressions of Model/BeginBlock.v's mint_panics *)
+Theorem C05_code_tie_mint_panic_sites :
+  forall prev blocks decrease e ratio ok,
+    gen_GetMintForBlock prev blocks decrease
+    = (if blocks =? 0 then GPanic
+       else match dtrunc64 (dec prev - dquo (dec decrease) (dec blocks)) with
+            | None => GPanic
+            | Some raw => GVal (if raw <? 0 then 0 else raw)
+            end) /\
+    gen_mintStaker e ratio ok
+    = match share64 ratio e with
+      | None => GPanic
+      | Some x => if x <? 0 then GPanic else GVal ([Ev "to-stakers"%string [x]], ok)
+      end /\
+    gen_mintStipend e ratio ok
+    = match share64 ratio e with None => GPanic | Some x => GVal ([Ev "to-stipend"%string [x]], ok) end.
+Proof.
+  intros. exact (conj (gen_GetMintForBlock_spec prev blocks decrease)
+                (conj (gen_mintStaker_spec e ratio ok) (gen_mintStipend_spec e ratio ok))).
+Qed.
+Print Assumptions C05_code_tie_mint_panic_sites.
